@@ -516,7 +516,11 @@ func Config(c absd.Cfg, l Layout, rng *rand.Rand) (yaml string, cli []string) {
 	twoList("required_fields", "required_fields", c.Required)
 	twoList("sensitive_fields", "sensitive", c.Sensitive)
 	if c.Separate {
-		if c.ImportOverride {
+		if c.LegacyOverride {
+			legacy := "example.com/legacy/" + l.StructImport[strings.LastIndex(l.StructImport, "/")+1:]
+			twoStr("default_package_name", "default_package_name", legacy)
+			add("import_path_overrides", "import_path_overrides:\n  "+yq(legacy)+": "+yq(l.StructImport)+"\n")
+		} else if c.ImportOverride {
 			// the short package name as default_package_name, resolved to the import path by import_path_overrides
 			short := l.StructImport[strings.LastIndex(l.StructImport, "/")+1:]
 			twoStr("default_package_name", "default_package_name", short)
